@@ -518,3 +518,98 @@ Proof.
       rewrite Hzi. unfold eqm; f_equal; ring. }
     unfold eqm in E. rewrite E. apply Z.mod_small. lia.
 Qed.
+
+(* ---------------- sm2_z256_rand_range / sm2_key_generate (control flow) ---------------- *)
+Theorem rand_range_spec : forall tries range draws r0 ret r rest,
+  rand_range_loop ZOps Z.ltb tries range draws r0 = (ret, r, rest) ->
+  (ret = 1 /\ r < range /\ In (Some r) draws) \/ (ret = 0) \/ (ret = -1).
+Proof.
+  induction tries as [|t IH]; intros range draws r0 ret r rest H; cbn [rand_range_loop] in H.
+  - inversion H; subst. right; left; reflexivity.
+  - destruct draws as [|[v|] ds].
+    + inversion H; subst. right; right; reflexivity.
+    + destruct (Z.ltb_spec v range) as [L|G]; cbn [negb] in H.
+      * inversion H; subst. left. split; [reflexivity|]. split; [exact L | left; reflexivity].
+      * destruct (IH _ _ _ _ _ _ H) as [(E & L & I)|O]; [left; split; [exact E|]; split; [exact L | right; exact I] | right; exact O].
+    + inversion H; subst. right; right; reflexivity.
+Qed.
+(* a value is returned only if it is below the range; at most [tries] draws are consumed *)
+Theorem rand_range_draws : forall tries range draws r0 ret r rest,
+  rand_range_loop ZOps Z.ltb tries range draws r0 = (ret, r, rest) ->
+  (length draws <= length rest + tries)%nat.
+Proof.
+  induction tries as [|t IH]; intros range draws r0 ret r rest H; cbn [rand_range_loop] in H.
+  - inversion H; subst. lia.
+  - destruct draws as [|[v|] ds]; try (inversion H; subst; cbn [length]; lia).
+    destruct (Z.ltb v range); cbn [negb] in H.
+    + inversion H; subst. cbn [length]. lia.
+    + apply IH in H. cbn [length]. lia.
+Qed.
+
+(* sm2_key_generate returns only scalars in [1, n-2] *)
+Theorem key_generate_range : forall fuel draws d0 d,
+  key_generate_loop ZOps Z.ltb KpZ fuel (c_n - 1) draws d0 = (1, d) ->
+  (forall v, In (Some v) draws -> 0 <= v) ->
+  1 <= d <= c_n - 2.
+Proof.
+  induction fuel as [|f IH]; intros draws d0 d H Hpos; cbn [key_generate_loop] in H; [discriminate|].
+  unfold rand_range in H.
+  destruct (rand_range_loop ZOps Z.ltb 100 (c_n - 1) draws d0) as [[ret r] rest] eqn:ER.
+  destruct (Z.eqb_spec ret 1) as [->|N]; cbn [negb] in H; [|discriminate].
+  destruct (rand_range_spec _ _ _ _ _ _ _ ER) as [(_ & L & I)|[E|E]]; try discriminate.
+  unfold is0 in H. cbn [neqb ZOps k0 KpZ mk_consts nofZ] in H.
+  destruct (Z.eqb_spec r 0) as [Z0|NZ].
+  - apply (IH rest r d H). intros v Hv.
+    (* rest is a suffix of draws *)
+    assert (Suf : forall tries range draws r0 ret r rest, rand_range_loop ZOps Z.ltb tries range draws r0 = (ret, r, rest) ->
+                  forall x, In x rest -> In x draws).
+    { clear. induction tries as [|t IHt]; intros range draws r0 ret r rest H x Hx; cbn [rand_range_loop] in H.
+      - inversion H; subst. exact Hx.
+      - destruct draws as [|[v|] ds]; try (inversion H; subst; try right; auto; fail).
+        destruct (Z.ltb v range); cbn [negb] in H.
+        + inversion H; subst. right. exact Hx.
+        + right. eapply IHt; eauto. }
+    apply Hpos. eapply Suf; eauto.
+  - inversion H; subst. pose proof (Hpos _ I). lia.
+Qed.
+
+(* sm2_z256_point_set_xy returns 1 exactly on the points of the curve with reduced coordinates *)
+Theorem set_xy_ok_iff : forall Pin x y, 0 <= x -> 0 <= y ->
+  fst (point_set_xy ZOps Z.ltb KpZ Pin x y) = 1 <->
+  x < c_p /\ y < c_p /\ (y * y) mod c_p = (x * x * x + sm2_a * x + sm2_b) mod c_p.
+Proof.
+  intros Pin x y Hx Hy. unfold point_set_xy. change (km KpZ) with c_p.
+  destruct (Z.ltb_spec x c_p); cbn [negb fst]; [|split; [discriminate | lia]].
+  destruct (Z.ltb_spec y c_p); cbn [negb fst]; [|split; [discriminate | lia]].
+  pose proof (on_curve_iff x y ltac:(lia) ltac:(lia)) as OC.
+  match goal with |- context [if ?c then _ else _] =>
+    change c with (point_is_on_curve Z FpZ (vto_mont ZOps Z.ltb KpZ x, vto_mont ZOps Z.ltb KpZ y, knegm KpZ)) end.
+  destruct (point_is_on_curve Z FpZ (vto_mont ZOps Z.ltb KpZ x, vto_mont ZOps Z.ltb KpZ y, knegm KpZ)); cbn [fst]; split; intro H1.
+  - split; [lia|]. split; [lia|]. apply OC. reflexivity.
+  - reflexivity.
+  - discriminate H1.
+  - destruct H1 as (_ & _ & E). apply OC in E. discriminate E.
+Qed.
+
+Lemma from_to_mont' : forall x, 0 <= x < c_p -> vfrom_mont ZOps Z.ltb KpZ (vto_mont ZOps Z.ltb KpZ x) = x.
+Proof.
+  intros x Hx. destruct (to_from_mont_p x Hx) as (D & O & _).
+  destruct (to_from_mont_p _ O) as (_ & _ & Fm). rewrite Fm. exact D.
+Qed.
+(* on a normalised point get_xy / to_bytes / to_uncompressed_octets return the coordinates *)
+Theorem get_xy_normalised : forall x y, 0 <= x < c_p -> 0 <= y < c_p ->
+  point_get_xy Z FpZ (vto_mont ZOps Z.ltb KpZ x, vto_mont ZOps Z.ltb KpZ y, knegm KpZ) = (1, x, y) /\
+  point_to_uncompressed ZOps Z.ltb KpZ (vto_mont ZOps Z.ltb KpZ x, vto_mont ZOps Z.ltb KpZ y, knegm KpZ) = Some (x, y).
+Proof.
+  intros x y Hx Hy.
+  assert (G : point_get_xy Z FpZ (vto_mont ZOps Z.ltb KpZ x, vto_mont ZOps Z.ltb KpZ y, knegm KpZ) = (1, x, y)).
+  { unfold point_get_xy, point_is_at_infinity, iszero.
+    cbn [FpZ modp_fops f_eqb f_zero f_one f_from_mont neqb ZOps].
+    replace (knegm KpZ =? k0 KpZ) with false by reflexivity. rewrite Z.eqb_refl.
+    rewrite !from_to_mont' by assumption. reflexivity. }
+  split; [exact G|].
+  unfold point_to_uncompressed, point_get_xy, point_is_at_infinity, iszero.
+  cbn [modp_fops f_eqb f_zero f_one f_from_mont neqb ZOps].
+  replace (knegm KpZ =? k0 KpZ) with false by reflexivity. rewrite Z.eqb_refl.
+  rewrite !from_to_mont' by assumption. reflexivity.
+Qed.
